@@ -17,7 +17,10 @@ EXPLANATION = (
     "length strictly above the longest fence-like run, same character scanned and emitted; (R-HAZARD) the first-word "
     "languages of marko's paragraph-interrupting block patterns (Glushkov automata of the dependency's own constants) are "
     "included in the language the line-start escaper rewrites, per shape class; (R-ESCAPE-SITE/ACTION) the escaper runs on "
-    "the first word of every continuation line in Markdown mode on both wrapper chains and only inserts one backslash. "
+    "the first word of every continuation line in Markdown mode on both wrapper chains and only inserts one backslash; "
+    "(R-STATE) the renderer fields that accumulate the inline text of the current block (they decide whether `1\\.` keeps its "
+    "backslash) are reset on every path before a paragraph / heading renders its children (typestate, through context-manager "
+    "entry code and self-method calls). "
     "Not decided: that re-parsing the output yields the same tree for arbitrary input (round trip on runtime values)."
 )
 
